@@ -170,9 +170,9 @@ func c07Sim(r *simcore.Run) {
 	proc := NewRuleSetProcessor(live, f)
 
 	// writers: one per source (a provider applies the changes of its source sequentially)
-	sources := []string{"s0", "s1"}
+	sources := []string{"src:/rules/a", "src:/rules/a1"}
 	if s.Draw(4, "third-writer") == 3 {
-		sources = append(sources, "s2")
+		sources = append(sources, "src:/rules/a10")
 	}
 	plans := make([][]int, len(sources))
 	state := ""
